@@ -616,6 +616,140 @@ fn lifecycle_case(seed: u64, idx: u64) -> CaseOut {
     co
 }
 
+// ---- replace window: manual ticks stay inert while one steady ticker is being replaced by another ---------
+// A terminal whose flush() can be held by a gate parks the old ticker thread in the middle of its tick (it
+// holds the bar state there). Thread A replaces the ticker (enable_steady_tick again: stop + join of the old
+// thread, which cannot finish yet), thread B calls tick()/inc(). Then the gate opens. A steady ticker was
+// installed before and after the replacement, so the manual call must not have advanced the spinner: the
+// frames show the old ticker's tick and the new ticker's first tick, nothing else.
+
+struct GateTerm {
+    frames: Mutex<Vec<String>>,
+    line: Mutex<String>,
+    armed: std::sync::atomic::AtomicBool,
+    parked: std::sync::atomic::AtomicBool,
+    open: std::sync::atomic::AtomicBool,
+    main: std::thread::ThreadId,
+}
+
+#[derive(Clone)]
+struct GateTermHandle(Arc<GateTerm>);
+
+impl std::fmt::Debug for GateTermHandle {
+    fn fmt(&self, f: &mut std::fmt::Formatter<'_>) -> std::fmt::Result {
+        f.write_str("GateTerm")
+    }
+}
+
+impl indicatif::TermLike for GateTermHandle {
+    fn width(&self) -> u16 {
+        40
+    }
+    fn height(&self) -> u16 {
+        10
+    }
+    fn move_cursor_up(&self, _: usize) -> std::io::Result<()> {
+        Ok(())
+    }
+    fn move_cursor_down(&self, _: usize) -> std::io::Result<()> {
+        Ok(())
+    }
+    fn move_cursor_right(&self, _: usize) -> std::io::Result<()> {
+        Ok(())
+    }
+    fn move_cursor_left(&self, _: usize) -> std::io::Result<()> {
+        Ok(())
+    }
+    fn write_line(&self, s: &str) -> std::io::Result<()> {
+        self.0.line.lock().unwrap().push_str(s);
+        Ok(())
+    }
+    fn write_str(&self, s: &str) -> std::io::Result<()> {
+        self.0.line.lock().unwrap().push_str(s);
+        Ok(())
+    }
+    fn clear_line(&self) -> std::io::Result<()> {
+        Ok(())
+    }
+    fn flush(&self) -> std::io::Result<()> {
+        use std::sync::atomic::Ordering::SeqCst;
+        let text = std::mem::take(&mut *self.0.line.lock().unwrap());
+        if !text.trim().is_empty() {
+            self.0.frames.lock().unwrap().push(text.trim().to_string());
+        }
+        if self.0.armed.swap(false, SeqCst) && std::thread::current().id() != self.0.main {
+            self.0.parked.store(true, SeqCst);
+            let t0 = Instant::now();
+            while !self.0.open.load(SeqCst) && t0.elapsed() < Duration::from_secs(5) {
+                std::thread::sleep(Duration::from_micros(200));
+            }
+        }
+        Ok(())
+    }
+}
+
+fn replace_window_case(seed: u64, idx: u64) -> CaseOut {
+    use std::sync::atomic::Ordering::SeqCst;
+    let mut rng = Rng::derive(seed, 808, idx);
+    let replay = format!("p{seed}:{idx}");
+    let manual = rng.below(3);
+    let manual_name = ["tick", "inc", "set_position"][manual as usize];
+    let settle_us = *rng.pick(&[500u64, 2_000, 5_000]);
+    let w = J::obj().with("manual_call", manual_name).with("settle_us", settle_us);
+    let feats = vec!["replace".to_string(), "manual-tick-is-inert".to_string(), manual_name.to_string()];
+    let mut co = CaseOut::held(fnv1a(format!("{manual}{settle_us}{idx}").as_bytes()), true);
+    let term = Arc::new(GateTerm {
+        frames: Mutex::new(Vec::new()),
+        line: Mutex::new(String::new()),
+        armed: std::sync::atomic::AtomicBool::new(false),
+        parked: std::sync::atomic::AtomicBool::new(false),
+        open: std::sync::atomic::AtomicBool::new(false),
+        main: std::thread::current().id(),
+    });
+    let pb = ProgressBar::with_draw_target(Some(100), ProgressDrawTarget::term_like(Box::new(GateTermHandle(term.clone()))));
+    pb.set_style(ProgressStyle::with_template("{spinner}").unwrap().tick_strings(&["0", "1", "2", "3", "4", "5", "6", "Z"]));
+    term.armed.store(true, SeqCst);
+    pb.enable_steady_tick(Duration::from_secs(3600));
+    if !wait_until(|| term.parked.load(SeqCst), Duration::from_secs(3)) {
+        term.open.store(true, SeqCst);
+        pb.disable_steady_tick();
+        co.verdict = Verdict::Inconclusive("the first tick of the steady ticker never reached the terminal".into());
+        return co;
+    }
+    let (pa, pb2) = (pb.clone(), pb.clone());
+    let a = std::thread::spawn(move || pa.enable_steady_tick(Duration::from_secs(7200)));
+    std::thread::sleep(Duration::from_micros(settle_us));
+    let b = std::thread::spawn(move || match manual {
+        0 => pb2.tick(),
+        1 => pb2.inc(1),
+        _ => pb2.set_position(7),
+    });
+    std::thread::sleep(Duration::from_micros(settle_us));
+    term.open.store(true, SeqCst);
+    let _ = a.join();
+    let _ = b.join();
+    // the new ticker ticks once right away; give it a moment, then stop everything
+    let _ = wait_until(|| term.frames.lock().unwrap().len() >= 2, Duration::from_secs(2));
+    pb.disable_steady_tick();
+    let frames = term.frames.lock().unwrap().clone();
+    // every frame shows the spinner; its highest value is the number of ticks that advanced it
+    let highest = frames.iter().filter_map(|f| f.chars().next().and_then(|c| c.to_digit(10))).max().unwrap_or(0);
+    if highest > 2 {
+        co.verdict = Verdict::Violated(Box::new(Violation {
+            rule: "manual-tick-advanced-spinner".into(),
+            features: feats,
+            detail: format!(
+                "{manual_name}() on another thread while enable_steady_tick() was replacing a running ticker advanced the spinner: frames {frames:?} (the two ticker threads account for 2 ticks)"
+            ),
+            witness: w,
+            replay,
+        }));
+    }
+    pb.abandon();
+    co.count("replace_windows_exercised", 1);
+    co
+}
+
 pub fn run(cfg: &RunCfg) -> PropResult {
     let report = if let Some(case) = &cfg.case {
         let life = case.starts_with('l');
@@ -623,7 +757,7 @@ pub fn run(cfg: &RunCfg) -> PropResult {
         let seed: u64 = it.next().and_then(|s| s.parse().ok()).unwrap_or(cfg.seed);
         let idx: u64 = it.next().and_then(|s| s.parse().ok()).unwrap_or(0);
         let mut r = crate::report::Report::default();
-        r.add(idx, if life { lifecycle_case(seed, idx) } else { stress_case(seed, idx) });
+        r.add(idx, if case.starts_with('p') { replace_window_case(seed, idx) } else if life { lifecycle_case(seed, idx) } else { stress_case(seed, idx) });
         r
     } else {
         let ns = if cfg.thorough { 60_000 } else { 1_500 };
@@ -631,11 +765,13 @@ pub fn run(cfg: &RunCfg) -> PropResult {
         // every scenario brings 3-5 threads of its own
         let mut r = crate::report::run_parallel_tagged('s', ns, 6, |i| stress_case(cfg.seed, i));
         r.merge(crate::report::run_parallel_tagged('l', nl, 8, |i| lifecycle_case(cfg.seed, i)));
+        let np = if cfg.thorough { 3_000 } else { 120 };
+        r.merge(crate::report::run_parallel_tagged('p', np, 8, |i| replace_window_case(cfg.seed, i)));
         r
     };
     PropResult {
         report,
-        rule: "stress evaluations: a scenario of 2-3 threads x 1-6 public calls (update, tick, inc, set_message, enable/disable_steady_tick with 1 ms / 5 ms / 1 s / 1 h, finish, println, suspend, reset, clone+drop, getters, mp.println, add+drop, add+remove) on one shared bar (hidden, visible, or inside a MultiProgress), optionally with a steady ticker already running, executed 3 times with different seeded delay schedules (the third with directed delays in front of nested lock requests and joins) under a wait-for-graph watchdog; lifecycle evaluations: disable / replace / drop-last-handle / finish / manual-tick-is-inert for each tick interval; distinct = scenario hash".into(),
+        rule: "stress evaluations: a scenario of 2-3 threads x 1-6 public calls (update, tick, inc, set_message, enable/disable_steady_tick with 1 ms / 5 ms / 1 s / 1 h, finish, println, suspend, reset, clone+drop, getters, mp.println, add+drop, add+remove) on one shared bar (hidden, visible, or inside a MultiProgress), optionally with a steady ticker already running, executed 3 times with different seeded delay schedules (the third with directed delays in front of nested lock requests and joins) under a wait-for-graph watchdog; lifecycle evaluations: disable / replace / drop-last-handle / finish / manual-tick-is-inert for each tick interval; replace-window evaluations: the old ticker's tick is held inside the terminal's flush() while one thread replaces the ticker and another calls tick/inc/set_position - the spinner must show the two tickers' ticks only; distinct = scenario hash".into(),
         exhaustive: false,
     }
 }
